@@ -217,10 +217,9 @@ def eval_pipeline(case):
             bm.recompute_edges(None if r == 0 else r)
             nev += 1
             dd = diff_tables(bm.df_features, recompute_edges(out, dict(thr2)))
-            if dd or bm.thresholds != thr:
+            if dd:
                 return VIOL({'site': 'Bycycle.recompute_edges', 'centre': centre, 'call': 'second'},
-                            'a second Bycycle.recompute_edges(%r) differs from the functional result with the same lowered thresholds '
-                            '(or changed the object\'s thresholds): %s' % (r, dd), observed={'word': w, 'thr': thr})
+                            'a second Bycycle.recompute_edges(%r) differs from the functional result with the same lowered thresholds: %s' % (r, dd), observed={'word': w, 'thr': thr})
         if centre == 'peak' and sum(map(ord, w)) % 8 == 0 and thr is PIPE_THR[-1]:
             # a group: every model must be re-labelled with the thresholds lowered ONCE
             from bycycle import BycycleGroup
